@@ -111,7 +111,7 @@ PACKAGE_SCENARIOS: list = [
         'func:odd-signatures',
         {
             'pk/__init__.py': '',
-            'pk/m.py': "class C:\n    def no_self(): ...\n\n    def this(this, a: int) -> int: ...\n\n    def self_annotated(self: 'C', a: int) -> 'C': ...\n\n    @staticmethod\n    def st_self(self, a: int) -> int: ...\n\n    @classmethod\n    def cm_klass(klass, a: int) -> 'C': ...\n\n    def star_only(*args): ...\n\n    def kw_only_self(*, self): ...\n\n    async def am(self) -> int: ...\n\n    async def agen(self):\n        yield 1\n\n    @property\n    async def aprop(self) -> int: ...\n\n    def __private(self) -> int: ...\n\n    def _C__mangled(self) -> int: ...\n\n    def __init__(this, a=1): this.a = a\n\n\ndef self(self): ...\n\n\ndef cls(cls=None, /, *, self=None): ...\n\n\ndef many(a, /, b, *, c): ...\n\n\ndef lam(a=lambda x=1, *y, **z: (x, y, z)): ...\n\n\ndef ann_star(*args: 'int', **kwargs: 'list[int]') -> None: ...\n\n\ndef _(a: int) -> int: ...\n\n\ndef __(a: int) -> int: ...\n",
+            'pk/m.py': "class C:\n    def no_self(): ...\n\n    def this(this, a: int) -> int: ...\n\n    def self_annotated(self: 'C', a: int) -> 'C': ...\n\n    @staticmethod\n    def st_self(self, a: int) -> int: ...\n\n    @classmethod\n    def cm_klass(klass, a: int) -> 'C': ...\n\n    def star_only(*args): ...\n\n    def kw_only_self(*, self): ...\n\n    async def am(self) -> int: ...\n\n    async def agen(self):\n        yield 1\n\n    @property\n    async def aprop(self) -> int: ...\n\n    def __private(self) -> int: ...\n\n    def _C__mangled(self) -> int: ...\n\n    def __init__(this, a=1): this.a = a\n\n\ndef self(self): ...\n\n\ndef cls(cls=None, /, *, self=None): ...\n\n\ndef many(a, /, b, *, c): ...\n\n\ndef lam(a=lambda x=1, *y, **z: (x, y, z)): ...\n\n\ndef ann_star(*args: 'int', **kwargs: 'list[int]') -> None: ...\n",
         },
         [[], ['-nc'], ['--docstyle', 'google']],
     ),
@@ -122,5 +122,15 @@ PACKAGE_SCENARIOS: list = [
             'pk/m.py': "import sys\nfrom typing import TypeVar\nx = 1\nx += 1\ndel x\nassert sys\nglobal_var: int\na = b = c = 0\n(d, e), f = (1, 2), 3\n[g, *h] = [1, 2]\ni: list[int] = [j := 1]\nk = lambda: 0\nT = TypeVar('T')\nT2 = TypeVar('T2', bound='Later')\n\n\nclass Later: ...\n\n\nwhile False:\n    def in_while() -> int: ...\n    break\nelse:\n    def in_while_else() -> int: ...\n\ntry:\n    def in_try() -> int: ...\nexcept Exception as exc:\n    def in_except() -> int: ...\nelse:\n    def in_else() -> int: ...\nfinally:\n    def in_finally() -> int: ...\n\nmatch sys.argv:\n    case []:\n        def in_case() -> int: ...\n    case _:\n        class InCase: ...\n\nif sys.version_info < (3,):\n    class OldOnly: ...\nelif sys.platform == 'win32':\n    class WinOnly: ...\nelse:\n    class Other: ...\n\n\ndef uses(t: T2) -> T2: ...\n\n\nprint('side effect')\nraise_later = NotImplementedError\n",
         },
         [[], ['-nc']],
+    ),
+    (
+        'type:names-defined-elsewhere',
+        {
+            'pk/__init__.py': 'from .ids import UserId\n',
+            'pk/ids.py': "import typing\nfrom typing import NewType, TypeAlias, TypeVar\nfrom enum import Enum\n\nUserId = NewType('UserId', int)\nGroupId = typing.NewType('GroupId', str)\nVec: TypeAlias = list[float]\nShared = TypeVar('Shared')\nBound = TypeVar('Bound', bound='Base')\n\n\nclass Base: ...\n\n\nclass Color(Enum):\n    RED = 1\n\n\nAliasOfClass = Base\nAliasOfEnum = Color\n",
+            'pk/users.py': "from pk.ids import UserId, GroupId, Vec, Shared, Bound, AliasOfClass, AliasOfEnum\nfrom pk import ids\n\n\ndef find(u: UserId, g: GroupId | None = None, v: Vec = [], s: Shared = None, b: Bound = None) -> UserId: ...\n\n\ndef aliased(a: AliasOfClass, e: AliasOfEnum = AliasOfEnum.RED, m: ids.UserId = ids.UserId(1)) -> ids.GroupId: ...\n\n\nclass Holder:\n    uid: UserId\n    gid: ids.GroupId\n    vec: Vec = []\n\n    def __init__(self, uid: UserId) -> None:\n        self.uid = uid\n\n\nclass Child(AliasOfClass): ...\n",
+            'pk/more_users.py': "from pk.ids import UserId\nfrom pk.users import Holder\n\n\ndef again(u: UserId, h: Holder) -> list[UserId]: ...\n",
+        },
+        [[], ['-nc'], ['--docstyle', 'numpydoc']],
     ),
 ]
